@@ -136,18 +136,23 @@ def run_exec(ctx, kind, cap, push, pop, mode, bound, runs, atoms, tag):
             "--bound", bound, "--runs", runs, "--out", out]
     if atoms:
         args.append("--atoms")
-    _, so, _ = vp.run_driver("drv-lockfree", args, timeout=1200, env={"VERIF_SEED": ctx.seed})
+    args.append("--yield-after")   # also preempt between a publishing store and the plain accesses after it
+    _, so, _ = vp.run_driver("drv-lockfree", args, timeout=1800, env={"VERIF_SEED": ctx.seed})
     return out, vp.last_json_line(so)
 
 
-def validate_api(ctx, kind, trace, summary):
-    """API-level validation against the property layer: V1."""
-    v = vp.tlc_trace("lockfree", "QueueLinTrace", trace)
-    vp.record_tlc(ctx, f"QueueLinTrace[{os.path.basename(trace)}]", v.res, count=False)
+def validate_api_batch(ctx, items):
+    """API-level validation of all recorded executions against the property layer (one JVM): V1."""
+    allp = ctx.path("traces", "all-api.ndjson")
+    ranges = vp.concat_traces(items, allp)
+    v = vp.tlc_trace("lockfree", "QueueLinTrace", allp, timeout=1800)
+    vp.record_tlc(ctx, f"QueueLinTrace[{len(items)} files]", v.res, count=False)
     if v.accepted:
-        ctx.traces_validated += summary["executions"]
+        ctx.traces_validated += sum(m[1]["executions"] for _, m in items)
         return True
-    recs = vp.read_ndjson(trace)
+    _, meta, _ = vp.locate(ranges, v.pos or 1)
+    kind, summary = meta if meta else ("?", {"cap": 0, "push": 0, "pop": 0})
+    recs = vp.read_ndjson(allp)
     run, rel = vp.run_containing(recs, v.pos) if v.pos else (recs[:50], 0)
     sched = [r for r in run if r.get("k") == "end"]
     ctx.report(vp.Violation(
@@ -172,13 +177,15 @@ def run(ctx):
     ]
     ord_tabs = {}
     drift_any = False
+    api_items = []
     # ---- 1. real executions: enumerate schedules, validate API level (V1) and atomic level (binding)
-    configs = [(1, 3, 2, 2), (2, 4, 3, 2)] if quick else [(1, 3, 3, 3), (2, 4, 3, 3), (2, 5, 4, 2), (3, 5, 4, 2)]
+    configs = [(1, 2, 2, 2), (1, 3, 2, 1), (2, 3, 3, 1)] if quick else [(1, 3, 3, 3), (2, 4, 3, 3), (2, 5, 4, 2), (3, 5, 4, 2)]
     kinds = ["oq", "iq", "q", "oqf", "iqf"]
+    yield_after = True
     for kind in kinds:
         overflow = kind in OVER
         for (cap, push, pop, bound) in configs:
-            limit = 1500 if quick else 20000
+            limit = 600 if quick else 20000
             tag = f"{kind}-c{cap}-p{push}-q{pop}-b{bound}"
             trace, summ = run_exec(ctx, kind, cap, push, pop, "dfs", bound, limit, True, tag)
             if summ["anomalies"]:
@@ -200,9 +207,9 @@ def run(ctx):
             prev = ord_tabs.setdefault(kind, tab)
             if prev != tab:
                 ctx.note(f"ordering table differs between runs for {kind}: {prev} vs {tab}")
-            validate_api(ctx, kind, trace, summ)
+            api_items.append((trace, (kind, summ)))
             # atomic-level conformance of the impl-shaped spec (structure; drift if it fails)
-            if not drift:
+            if not drift and (not quick or cap == configs[0][0] and push == configs[0][1]):
                 d = trace_module(ctx, f"TR_{kind}_{cap}", cap, overflow, tab)
                 v = vp.tlc_trace(d, f"TR_{kind}_{cap}", trace, libs=["lockfree"])
                 vp.record_tlc(ctx, f"SpscImplTrace[{tag}]", v.res, count=False)
@@ -216,10 +223,11 @@ def run(ctx):
                             "history": [f"t{r['t']}:{r['k']}:{r['a']}:{r.get('r', r.get('v'))}" for r in run0
                                         if r.get("k") in ("call", "ret")]})
         # random long schedules
-        n = 200 if quick else 3000
+        n = 60 if quick else 3000
         trace, summ = run_exec(ctx, kind, 2, 8, 8, "random", 0, n, False, f"{kind}-random")
         ctx.evaluations += summ["executions"]
-        validate_api(ctx, kind, trace, summ)
+        api_items.append((trace, (kind, summ)))
+    validate_api_batch(ctx, api_items)
 
     # ---- 2. TLC on the implementation-shaped model with the EXTRACTED orderings (V2)
     mcs = [("plain", False, 1, 3, 3), ("plain", False, 2, 3, 3), ("over", True, 1, 3, 2), ("over", True, 2, 4, 3)]
